@@ -64,7 +64,7 @@ end
 end ZV.Std
 
 /-! ### closed-form g-estimation (`GEstimationSNM._closed_form_solver_`) -/
-namespace ZV.Snm
+namespace ZV.SnmR
 
 /-- one row as the solver sees it: treatment, outcome, weight (frequency × missingness), fitted
     `Pr(A=1|L)`, and the modifier values `V_k` of the structural nested model `A·V_0 + A·V_1 + …`
@@ -108,7 +108,7 @@ def affY (c d : F) (r : SRow F) : SRow F := { r with y := c * r.y + d }
 def flipA (r : SRow F) : SRow F := { r with a := !r.a, p := ((1 : Nat) : F) - r.p }
 
 end
-end ZV.Snm
+end ZV.SnmR
 
 /-! ### score equations of a generalized linear model (the assumed behaviour of statsmodels) -/
 namespace ZV.Glm
